@@ -28,6 +28,7 @@ CONSTANTS
   MaxSpur,     \* how many polls without a wake-up
   Endings,     \* subset of {"eof","ctxdrop","srvdisc","handles","resume"}
   SeiSet,      \* session expiry intervals to consider: subset of {"zero", "finite", "never"}  (C17)
+  RecordSched, \* TRUE: keep the behaviour as a harness script in `sched` (simulation export); FALSE: sched stays empty
   Dev          \* deviations switched on
 
 VARIABLES
@@ -62,7 +63,7 @@ NoSt == [buf |-> <<>>, tx |-> FALSE, rx |-> FALSE, pollable |-> FALSE]
 
 NextId(c) == IF D("ZeroIdOnWrap") THEN (c + 1) % (IdN + 1) ELSE IF c = IdN THEN 1 ELSE c + 1
 
-Sch(step) == sched' = Append(sched, step)
+Sch(step) == sched' = IF RecordSched THEN Append(sched, step) ELSE sched
 CtxT == <<"ctx", 0>>
 
 Init ==
@@ -548,6 +549,8 @@ QuotaRestored == (~S.loose /\ g.out = 0) => S.quota = Rmax
 \* C14 (liveness): once the context is gone every future and stream ends
 AllSettled == \A o \in Ops : ops[o].st \notin {"built", "wait1", "wait2"} /\ ~sts[o].pollable
 Live_C14 == (ph = "gone") ~> AllSettled
+\* C16 (liveness): under a wake-only executor a completion that has been handed over is eventually observed
+Live_C16 == \A o \in Ops : (ops[o].st \in {"wait1", "wait2"} /\ ops[o].slot # <<>>) ~> (ops[o].st \notin {"wait1", "wait2"} \/ ops[o].slot = <<>>)
 
 TypeOK ==
   /\ S.quota \in 0..Rmax /\ g.out \in 0..(Rmax + 1) /\ nextPid \in 0..IdN
